@@ -64,6 +64,8 @@ class SymArray(np.ndarray):
 
 
 def _wrap(r):
+    if isinstance(r, np.ndarray) and r.dtype == object and r.ndim == 0:
+        return r.item()
     if isinstance(r, np.ndarray) and r.dtype == object and not isinstance(r, SymArray):
         return r.view(SymArray)
     if isinstance(r, tuple):
